@@ -499,6 +499,21 @@ theorem zoneStmts_length_le (n : String) (zones : List (List Int)) (k : Nat) :
 def zoneEvents (n : String) (zones : List (List Int)) : List Event :=
   (zones.zipIdx 0).map (zoneEvent n)
 
+theorem zones_device_all (n : String) (zones : List (List Int)) (D : DeviceState)
+    (cur : List (List Int)) (hD : D n = some (.multizone cur)) (hcur : cur.length = zones.length) :
+    applyTrace (zoneEvents n zones).reverse D n = some (.multizone zones) := by
+  obtain ⟨R, hR, hRl, hRi⟩ := zones_device n zones 0 D cur hD (by omega)
+  rw [zoneEvents, hR]
+  congr 2
+  apply List.ext_getElem?
+  intro i
+  rw [hRi i]
+  by_cases h : i < zones.length
+  · have : 0 ≤ i ∧ i < 0 + zones.length := by omega
+    rw [if_pos this]; rfl
+  · have : ¬ (0 ≤ i ∧ i < 0 + zones.length) := by omega
+    rw [if_neg this, List.getElem?_eq_none (by omega), List.getElem?_eq_none (by omega)]
+
 /-- **C18_zone_restored.**  The lines written for a multizone light `n` (any number of zones up
 to 65535, each colour component anywhere in 0…65535), run from any ready state, send one zone
 command per zone, `setZones n i (i+1) zones[i] 0` for `i = 0, 1, …`; a device with the same
@@ -512,21 +527,10 @@ theorem C18_zone_restored (n : String) (zones : List (List Int)) (s : S)
       s'.vm.trace = (zoneEvents n zones).reverse ++ s.vm.trace ∧
       applyTrace (zoneEvents n zones).reverse D n = some (.multizone zones) := by
   obtain ⟨s', hrun, hadds⟩ := zones_run n zones.length zones 0 s hr hk hin (by omega)
-  obtain ⟨R, hR, hRl, hRi⟩ := zones_device n zones 0 D cur hD (by omega)
   have hlenAst := zoneStmts_length_le n zones 0
-  refine ⟨s', ?_, hadds.trace, ?_⟩
-  · rw [lightAst_multizone]
-    exact hrun.block fuel (by omega)
-  · rw [zoneEvents, hR]
-    congr 2
-    apply List.ext_getElem?
-    intro i
-    rw [hRi i]
-    by_cases h : i < zones.length
-    · have : 0 ≤ i ∧ i < 0 + zones.length := by omega
-      rw [if_pos this]; rfl
-    · have : ¬ (0 ≤ i ∧ i < 0 + zones.length) := by omega
-      rw [if_neg this, List.getElem?_eq_none (by omega), List.getElem?_eq_none (by omega)]
+  refine ⟨s', ?_, hadds.trace, zones_device_all n zones D cur hD hcur⟩
+  rw [lightAst_multizone]
+  exact hrun.block fuel (by omega)
 
 
 /-! ## 2b. a matrix light -/
@@ -771,6 +775,375 @@ theorem C18_matrix_restored (n : String) (h w : Nat) (cells : List (List Int)) (
   refine ⟨s', hrun.block fuel (by simp [lightAst]; omega), hadds.trace, ?_⟩
   simp [applyTrace, applyEvent, upd, hD, Dev.setTile]
 
+
+/-! ## 3. the whole population -/
+
+/-- `sortNames` only reorders -/
+theorem sortNames_perm (xs : List String) : (sortNames xs).Perm xs := by
+  have key : ∀ (xs acc : List String),
+      (xs.foldl (fun acc x => (acc.takeWhile (· < x)) ++ [x] ++ (acc.dropWhile (· < x))) acc).Perm
+        (acc ++ xs) := by
+    intro xs
+    induction xs with
+    | nil => intro acc; simp
+    | cons x rest ih =>
+      intro acc
+      simp only [List.foldl_cons]
+      refine (ih _).trans ?_
+      have h1 : (List.takeWhile (· < x) acc ++ [x] ++ List.dropWhile (· < x) acc).Perm (x :: acc) := by
+        have e : List.takeWhile (· < x) acc ++ [x] ++ List.dropWhile (· < x) acc =
+            List.takeWhile (· < x) acc ++ x :: List.dropWhile (· < x) acc := by simp
+        rw [e]
+        have p := List.perm_middle (a := x) (l₁ := List.takeWhile (· < x) acc)
+          (l₂ := List.dropWhile (· < x) acc)
+        rwa [List.takeWhile_append_dropWhile] at p
+      refine (List.Perm.append_right rest h1).trans ?_
+      exact (List.perm_middle (l₁ := acc) (l₂ := rest) (a := x)).symm
+  simpa [sortNames] using key xs []
+
+theorem mem_ordered {ls : List Captured} {c : Captured} (h : c ∈ ordered ls) : c ∈ ls := by
+  simp only [ordered, List.mem_filterMap] at h
+  obtain ⟨n, _, hf⟩ := h
+  exact List.mem_of_find?_eq_some hf
+
+theorem ordered_names (ls : List Captured) :
+    (ordered ls).map (·.name) = sortNames (ls.map (·.name)) := by
+  have key : ∀ names : List String, (∀ n ∈ names, ∃ c ∈ ls, c.name = n) →
+      (names.filterMap fun n => ls.find? (·.name == n)).map (·.name) = names := by
+    intro names
+    induction names with
+    | nil => intro _; rfl
+    | cons n rest ih =>
+      intro h
+      obtain ⟨c, hc, hn⟩ := h n (by simp)
+      have hsome : (ls.find? (·.name == n)).isSome := by
+        rw [List.find?_isSome]
+        exact ⟨c, hc, by simp [hn]⟩
+      obtain ⟨c', hc'⟩ := Option.isSome_iff_exists.mp hsome
+      have hn' : c'.name = n := by simpa using List.find?_some hc'
+      rw [List.filterMap_cons, hc']
+      simp only [List.map_cons, hn']
+      rw [ih (fun m hm => h m (by simp [hm]))]
+  apply key
+  intro n hn
+  have := (sortNames_perm _).mem_iff.mp hn
+  simpa using this
+
+theorem name_inj {ls : List Captured} (hnd : (ls.map (·.name)).Nodup) {a b : Captured}
+    (ha : a ∈ ls) (hb : b ∈ ls) (h : a.name = b.name) : a = b := by
+  induction ls with
+  | nil => cases ha
+  | cons x rest ih =>
+    simp only [List.map_cons, List.nodup_cons, List.mem_map, not_exists, not_and] at hnd
+    simp only [List.mem_cons] at ha hb
+    rcases ha with rfl | ha <;> rcases hb with rfl | hb
+    · rfl
+    · exact absurd h.symm (hnd.1 b hb)
+    · exact absurd h (hnd.1 a ha)
+    · exact ih hnd.2 ha hb
+
+theorem ordered_mem {ls : List Captured} (hnd : (ls.map (·.name)).Nodup) {c : Captured}
+    (hc : c ∈ ls) : c ∈ ordered ls := by
+  simp only [ordered, List.mem_filterMap]
+  refine ⟨c.name, (sortNames_perm _).mem_iff.mpr (by simp; exact ⟨c, hc, rfl⟩), ?_⟩
+  have hsome : (ls.find? (·.name == c.name)).isSome := by
+    rw [List.find?_isSome]
+    exact ⟨c, hc, by simp⟩
+  obtain ⟨c', hc'⟩ := Option.isSome_iff_exists.mp hsome
+  have hn' : c'.name = c.name := by simpa using List.find?_some hc'
+  rw [hc', name_inj hnd (List.mem_of_find?_eq_some hc') hc hn']
+
+theorem ordered_nodup {ls : List Captured} (hnd : (ls.map (·.name)).Nodup) :
+    ((ordered ls).map (·.name)).Nodup := by
+  rw [ordered_names]
+  exact (sortNames_perm _).nodup_iff.mpr hnd
+
+
+theorem init_raw (lights : List Light) :
+    Ready ((Vm.init lights).switchMode .raw) ∧ ((Vm.init lights).switchMode .raw).lights = lights ∧
+      ((Vm.init lights).switchMode .raw).trace = [] := by
+  refine ⟨⟨?_, ?_, ?_, ?_⟩, ?_, ?_⟩
+  · rfl
+  · show numOf (.num (0 * 1000)) = some 0
+    simp [numOf, Val.asNum, Rat.zero_mul]
+  · show numOf (.num (0 * 1000)) = some 0
+    simp [numOf, Val.asNum, Rat.zero_mul]
+  · rfl
+  · rfl
+  · rfl
+
+/-- a possible capture: raw values in range, matrix cells matching the size -/
+def Valid : Captured → Prop
+  | .plain _ c p => InRange c ∧ (p = 0 ∨ p = 65535)
+  | .multizone _ zones => zones.length ≤ 65535 ∧ ∀ z ∈ zones, InRange z
+  | .matrix _ h w cells => cells.length = h * w ∧ ∀ c ∈ cells, InRange c
+
+def kindOf : Captured → LightKind
+  | .plain _ _ _ => .plain
+  | .multizone _ zones => .multizone zones.length
+  | .matrix _ h w _ => .matrix h w
+
+/-- the captured state as a device state -/
+def devOf : Captured → Dev
+  | .plain _ c p => .plain c p
+  | .multizone _ zones => .multizone zones
+  | .matrix _ _ _ cells => .matrix cells
+
+/-- the messages replaying one light's lines sends, oldest first -/
+def events : Captured → List Event
+  | .plain n c p => [.setPower n p 0, .setColor n c 0]
+  | .multizone n zones => zoneEvents n zones
+  | .matrix n h w cells => [.setTile n cells 0 w h]
+
+/-- the device at replay time is the same light: same make, same number of zones -/
+def SameShape (D : DeviceState) : Captured → Prop
+  | .plain n _ _ => ∃ c p, D n = some (.plain c p)
+  | .multizone n zones => ∃ cur, D n = some (.multizone cur) ∧ cur.length = zones.length
+  | .matrix n _ _ _ => ∃ cur, D n = some (.matrix cur)
+
+/-- fuel one statement of a light's lines may need -/
+def stmtBound : Captured → Nat
+  | .plain _ _ _ => 3
+  | .multizone _ _ => 5
+  | .matrix _ _ _ cells => 5 * cells.length + 8
+
+theorem light_runs (c : Captured) (s : S) (hr : Ready s.vm)
+    (hk : HasKind s.vm c.name (kindOf c)) (hv : Valid c) :
+    ∃ s', RunsTo (stmtBound c) (lightAst c) s s' ∧ Adds s s' (events c).reverse := by
+  cases c with
+  | plain n col p => exact plain_runs n col p _ s hr hk hv.1 hv.2
+  | multizone n zones =>
+    obtain ⟨s', h1, h2⟩ := zones_run n zones.length zones 0 s hr hk hv.2 (by have := hv.1; omega)
+    exact ⟨s', h1, h2⟩
+  | matrix n h w cells => exact matrix_runs n h w cells s hr hk hv.2 hv.1
+
+theorem lights_run (K : Nat) : ∀ (ord : List Captured) (s : S), (∀ c ∈ ord, stmtBound c ≤ K) →
+    Ready s.vm → (∀ c ∈ ord, HasKind s.vm c.name (kindOf c)) → (∀ c ∈ ord, Valid c) →
+    ∃ s', RunsTo K (ord.map lightAst).flatten s s' ∧ Adds s s' (ord.flatMap events).reverse := by
+  intro ord
+  induction ord with
+  | nil => intro s _ hr _ _; exact ⟨s, RunsTo.nil K s, hr, SameDir.rfl', rfl⟩
+  | cons c rest ih =>
+    intro s hK hr hk hv
+    obtain ⟨s1, hx1, ha1⟩ := light_runs c s hr (hk c (by simp)) (hv c (by simp))
+    obtain ⟨s2, hx2, ha2⟩ := ih s1 (fun x hx => hK x (by simp [hx])) ha1.ready
+      (fun x hx => (hk x (by simp [hx])).of_sameDir ha1.dir) (fun x hx => hv x (by simp [hx]))
+    refine ⟨s2, ?_, ?_⟩
+    · simp only [List.map_cons, List.flatten_cons]
+      exact RunsTo.append (hx1.mono (hK c (by simp))) hx2
+    · simp only [List.flatMap_cons, List.reverse_append]
+      exact ha1.trans ha2
+
+theorem events_target (c : Captured) : ∀ e ∈ events c, target e = some c.name := by
+  cases c with
+  | plain n col p =>
+    intro e he
+    simp only [events, List.mem_cons, List.not_mem_nil, or_false] at he
+    rcases he with rfl | rfl <;> rfl
+  | multizone n zones =>
+    intro e he
+    simp only [events, zoneEvents, List.mem_map] at he
+    obtain ⟨zi, _, rfl⟩ := he
+    rfl
+  | matrix n h w cells =>
+    intro e he
+    simp only [events, List.mem_cons, List.not_mem_nil, or_false] at he
+    subst he; rfl
+
+/-- **frame**, for a whole trace: messages addressed to other lights leave device `m` alone -/
+theorem applyTrace_frame' (m : String) : ∀ (evs : List Event),
+    (∀ e ∈ evs, ∃ n, target e = some n ∧ n ≠ m) → ∀ D, applyTrace evs D m = D m := by
+  intro evs
+  induction evs with
+  | nil => intro _ D; rfl
+  | cons e evs ih =>
+    intro h D
+    obtain ⟨n, hn, hne⟩ := h e (by simp)
+    have h1 : applyTrace (e :: evs) D = applyTrace [e] (applyTrace evs D) := rfl
+    rw [h1, applyTrace_frame n m (Ne.symm hne) [e] (by simpa using hn)]
+    exact ih (fun x hx => h x (by simp [hx])) D
+
+theorem light_device (c : Captured) (D : DeviceState) (hs : SameShape D c) :
+    applyTrace (events c).reverse D c.name = some (devOf c) := by
+  cases c with
+  | plain n col p =>
+    obtain ⟨c0, p0, hD⟩ := hs
+    simp [events, applyTrace, applyEvent, upd, hD, Dev.setColor, Dev.setPower, devOf, Captured.name]
+  | multizone n zones =>
+    obtain ⟨cur, hD, hl⟩ := hs
+    exact zones_device_all n zones D cur hD hl
+  | matrix n h w cells =>
+    obtain ⟨cur, hD⟩ := hs
+    simp [events, applyTrace, applyEvent, upd, hD, Dev.setTile, devOf, Captured.name]
+
+theorem SameShape.congr {D D' : DeviceState} {c : Captured} (h : D' c.name = D c.name)
+    (hs : SameShape D c) : SameShape D' c := by
+  cases c <;> simp only [SameShape, Captured.name] at * <;> rw [h] <;> exact hs
+
+theorem lights_device : ∀ (ord : List Captured) (D : DeviceState), (ord.map (·.name)).Nodup →
+    (∀ c ∈ ord, SameShape D c) →
+    ∀ c ∈ ord, applyTrace (ord.flatMap events).reverse D c.name = some (devOf c) := by
+  intro ord
+  induction ord with
+  | nil => intro D _ _ c hc; cases hc
+  | cons x rest ih =>
+    intro D hnd hs c hc
+    simp only [List.map_cons, List.nodup_cons, List.mem_map, not_exists, not_and] at hnd
+    simp only [List.flatMap_cons, List.reverse_append]
+    rw [applyTrace_append]
+    have hframe : ∀ y ∈ rest, applyTrace (events x).reverse D y.name = D y.name := by
+      intro y hy
+      apply applyTrace_frame x.name y.name
+      · intro e; exact hnd.1 y hy (e ▸ rfl)
+      · intro e he
+        exact events_target x e (by simpa using he)
+    simp only [List.mem_cons] at hc
+    rcases hc with rfl | hc
+    · rw [applyTrace_frame' c.name]
+      · exact light_device c D (hs c (by simp))
+      · intro e he
+        simp only [List.mem_reverse, List.mem_flatMap] at he
+        obtain ⟨y, hy, hey⟩ := he
+        exact ⟨y.name, events_target y e hey, fun e' => hnd.1 y hy e'⟩
+    · exact ih _ hnd.2 (fun y hy => SameShape.congr (hframe y hy) (hs y (by simp [hy]))) c hc
+
+theorem stmtBound_le_max (ord : List Captured) :
+    ∀ c ∈ ord, stmtBound c ≤ (ord.map stmtBound).foldr max 3 := by
+  induction ord with
+  | nil => intro c hc; cases hc
+  | cons x rest ih =>
+    intro c hc
+    simp only [List.map_cons, List.foldr_cons]
+    simp only [List.mem_cons] at hc
+    rcases hc with rfl | hc
+    · exact Nat.le_max_left _ _
+    · exact Nat.le_trans (ih c hc) (Nat.le_max_right _ _)
+
+/-- fuel that suffices to replay the capture of `ls`: one unit per top-level statement, plus
+what the most deeply nested statement (the largest matrix block) needs -/
+def fuelBound (ls : List Captured) : Nat :=
+  ((ordered ls).map lightAst).flatten.length + ((ordered ls).map stmtBound).foldr max 3 + 2
+
+/-- **C18_snapshot_roundtrip.**  For every population of captured lights with pairwise distinct
+names — any mix of plain, multizone and matrix lights, any zone counts and matrix sizes, every
+raw component anywhere in 0…65535, power on or off — the script `Snapshot.scriptAst ls`, run
+from the VM's initial state against the same lights, ends normally, sends exactly the messages
+`events` lists, light after light in name order, and leaves every device — whatever state it
+was in before — in exactly the captured state. -/
+theorem C18_snapshot_roundtrip (ls : List Captured) (lights : List Light) (D : DeviceState)
+    (hnd : (ls.map (·.name)).Nodup) (hv : ∀ c ∈ ls, Valid c)
+    (hpop : ∀ c ∈ ls, HasKind (Vm.init lights) c.name (kindOf c))
+    (hD : ∀ c ∈ ls, SameShape D c) (fuel : Nat) (hf : fuelBound ls ≤ fuel) :
+    (Sem.run fuel (scriptAst ls) lights).1 = .normal ∧
+    (Sem.run fuel (scriptAst ls) lights).2.vm.trace = ((ordered ls).flatMap events).reverse ∧
+    ∀ c ∈ ls, applyTrace (Sem.run fuel (scriptAst ls) lights).2.vm.trace D c.name =
+      some (devOf c) := by
+  let K := ((ordered ls).map stmtBound).foldr max 3
+  let s0 : S := { vm := Vm.init lights, routines := (collect (scriptAst ls)).reverse }
+  obtain ⟨hr1, hl1, ht1⟩ := init_raw lights
+  let s1 : S := { s0 with vm := (Vm.init lights).switchMode .raw }
+  have hunits : RunsTo K [Stmt.units .raw] s0 s1 := by
+    apply RunsTo.single
+    intro f hf
+    obtain ⟨g, rfl⟩ : ∃ g, f = g + 1 := ⟨f - 1, by
+      have : 3 ≤ K := by
+        show 3 ≤ ((ordered ls).map stmtBound).foldr max 3
+        generalize (ordered ls).map stmtBound = xs
+        induction xs with
+        | nil => exact Nat.le_refl _
+        | cons a t ih => exact Nat.le_trans ih (Nat.le_max_right _ _)
+      omega⟩
+    simp only [execStmt]
+    exact device_running s0 _ hr1.run
+  have hd01 : SameDir (Vm.init lights) s1.vm := sameDir_of_lights hl1
+  obtain ⟨s2, hx2, ha2⟩ := lights_run K (ordered ls) s1 (stmtBound_le_max _) hr1
+    (fun c hc => (hpop c (mem_ordered hc)).of_sameDir hd01) (fun c hc => hv c (mem_ordered hc))
+  have hrun : Sem.run fuel (scriptAst ls) lights = (.normal, s2) := by
+    have := (RunsTo.append hunits hx2).block fuel (by
+      simp only [fuelBound] at hf
+      simp only [List.length_append, List.length_cons, List.length_nil]
+      omega)
+    exact this
+  have htrace : s2.vm.trace = ((ordered ls).flatMap events).reverse := by
+    rw [ha2.trace]
+    show _ ++ ((Vm.init lights).switchMode .raw).trace = _
+    rw [ht1, List.append_nil]
+  rw [hrun]
+  refine ⟨rfl, htrace, ?_⟩
+  intro c hc
+  simp only [htrace]
+  exact lights_device (ordered ls) D (ordered_nodup hnd) (fun x hx => hD x (mem_ordered hx)) c
+    (ordered_mem hnd hc)
+
+
+/-! ## the hypotheses are satisfiable
+
+A population with one light of each kind, captured in one state and replayed against devices
+in another. -/
+namespace Example
+
+def captured : List Captured :=
+  [.plain "lamp" [21845, 65535, 32768, 3500] 65535,
+   .multizone "strip" [[0, 0, 0, 2700], [100, 200, 300, 2700], [65535, 65535, 65535, 9000]],
+   .matrix "tile" 2 2 [[1, 2, 3, 4], [5, 6, 7, 8], [9, 10, 11, 12], [13, 14, 15, 16]]]
+
+def lights : List Light :=
+  [{ name := "lamp", group := "g", location := "l", kind := .plain },
+   { name := "strip", group := "g", location := "l", kind := .multizone 3 },
+   { name := "tile", group := "g", location := "l", kind := .matrix 2 2 }]
+
+def before : DeviceState
+  | "lamp" => some (.plain [1, 1, 1, 1] 0)
+  | "strip" => some (.multizone [[7, 7, 7, 7], [8, 8, 8, 8], [9, 9, 9, 9]])
+  | "tile" => some (.matrix [[0, 0, 0, 0], [0, 0, 0, 0], [0, 0, 0, 0], [0, 0, 0, 0]])
+  | _ => none
+
+theorem inRange_of {c : List Int} (h : c.length = 4 ∧ c.all (fun x => 0 ≤ x && x ≤ 65535) = true) :
+    InRange c := by
+  refine ⟨h.1, ?_⟩
+  intro x hx
+  have := List.all_eq_true.mp h.2 x hx
+  simpa using this
+
+theorem captured_valid : ∀ c ∈ captured, Valid c := by
+  intro c hc
+  simp only [captured, List.mem_cons, List.not_mem_nil, or_false] at hc
+  rcases hc with rfl | rfl | rfl
+  · exact ⟨inRange_of (by decide), .inr rfl⟩
+  · refine ⟨by decide, ?_⟩
+    intro z hz
+    simp only [List.mem_cons, List.not_mem_nil, or_false] at hz
+    rcases hz with rfl | rfl | rfl <;> exact inRange_of (by decide)
+  · refine ⟨by decide, ?_⟩
+    intro z hz
+    simp only [List.mem_cons, List.not_mem_nil, or_false] at hz
+    rcases hz with rfl | rfl | rfl | rfl <;> exact inRange_of (by decide)
+
+theorem captured_known : ∀ c ∈ captured, HasKind (Vm.init lights) c.name (kindOf c) := by
+  intro c hc
+  simp only [captured, List.mem_cons, List.not_mem_nil, or_false] at hc
+  rcases hc with rfl | rfl | rfl
+  · exact ⟨{ name := "lamp", group := "g", location := "l", kind := .plain }, rfl, rfl⟩
+  · exact ⟨{ name := "strip", group := "g", location := "l", kind := .multizone 3 }, rfl, rfl⟩
+  · exact ⟨{ name := "tile", group := "g", location := "l", kind := .matrix 2 2 }, rfl, rfl⟩
+
+theorem before_shape : ∀ c ∈ captured, SameShape before c := by
+  intro c hc
+  simp only [captured, List.mem_cons, List.not_mem_nil, or_false] at hc
+  rcases hc with rfl | rfl | rfl
+  · exact ⟨_, _, rfl⟩
+  · exact ⟨_, rfl, rfl⟩
+  · exact ⟨_, rfl⟩
+
+/-- the replay ends normally and every device ends in the captured state -/
+example : (Sem.run 200 (scriptAst captured) lights).1 = .normal ∧
+    ∀ c ∈ captured, applyTrace (Sem.run 200 (scriptAst captured) lights).2.vm.trace before c.name =
+      some (devOf c) := by
+  have h := C18_snapshot_roundtrip captured lights before (by decide) captured_valid captured_known
+    before_shape 200 (by decide)
+  exact ⟨h.1, h.2.2⟩
+
+end Example
 
 end C18
 end Bardolph
